@@ -67,7 +67,7 @@ class CallMixin:
         return super().lookup_name(name, st)
 
     SPEC_BUILTINS = ("implies", "iff", "ite", "dom", "is_none", "some", "has_class", "lang_re", "in_re", "select", "to_real", "str_at",
-                     "same_except", "list_eq", "is_append", "is_empty_list", "unboxed", "ext_const", "bn", "select_eq", "card_int", "is_int", "card_val", "seq_eq", "dict_eq_on", "fresh_obj", "alloc", "is_alloc", "heap_eq", "str_len", "str_from_int")
+                     "is_perm", "abs_real", "same_except", "list_eq", "is_append", "is_empty_list", "unboxed", "ext_const", "bn", "select_eq", "card_int", "is_int", "card_val", "seq_eq", "dict_eq_on", "fresh_obj", "alloc", "is_alloc", "heap_eq", "str_len", "str_from_int")
 
     def builtin(self, st, name, args, kwargs, node):
         a = args
@@ -199,6 +199,10 @@ class CallMixin:
                 yield st, SV(PyFunc, ("dictview", name, recv)); return
         raise VCError("method %s on %s unsupported (line %s)" % (name, ty, getattr(node, "lineno", "?")))
 
+    def is_perm(self, ty, a, b):
+        f = z3.Function("is_perm_" + ty.name(), T.sort_of(ty), T.sort_of(ty), z3.BoolSort())
+        return f(a, b)
+
     def list_sort(self, st, recv, kwargs, node, writeback):
         """list.sort(reverse=True, key=lambda x: x.<real-valued property>) : stable sort, assumed contract:
         result is a permutation (index bijection perm) ordered by key; equal keys keep their relative order."""
@@ -225,12 +229,14 @@ class CallMixin:
         inv = z3.Function("perminv!%d" % id(node), z3.IntSort(), z3.IntSort())
         i, j = z3.Ints("i!s j!s")
         st.assume(T.list_len(ty, r) == n)
-        st.assume(z3.ForAll([i], z3.Implies(z3.And(i >= 0, i < n), z3.And(perm(i) >= 0, perm(i) < n, inv(perm(i)) == i, rarr[i] == arr[perm(i)]))))
+        st.assume(z3.ForAll([i], z3.Implies(z3.And(i >= 0, i < n), z3.And(perm(i) >= 0, perm(i) < n, inv(perm(i)) == i, rarr[i] == arr[perm(i)])), patterns=[rarr[i], perm(i)]))
         st.assume(z3.ForAll([i], z3.Implies(z3.And(i >= 0, i < n), z3.And(inv(i) >= 0, inv(i) < n, perm(inv(i)) == i))))
+        st.assume(z3.ForAll([i], z3.Implies(z3.And(i >= 0, i < n), z3.And(inv(i) >= 0, inv(i) < n, rarr[inv(i)] == arr[i])), patterns=[arr[i]]))
         ki = keyof(rarr[i], st); kj = keyof(rarr[j], st)
         ordered = (ki.t >= kj.t) if desc else (ki.t <= kj.t)
         st.assume(z3.ForAll([i, j], z3.Implies(z3.And(0 <= i, i < j, j < n), z3.And(ordered, z3.Implies(ki.t == kj.t, perm(i) < perm(j))))))
         self.note_assumption("list.sort is a stable sort (CPython guarantee): permutation, ordered by key, ties keep input order")
+        st.assume(self.is_perm(ty, r, recv.t))
         self.last_sort = (perm, inv)
         for st2 in writeback(SV(ty, r)): yield st2, SV(T.NoneT, z3.BoolVal(True))
 
@@ -374,8 +380,9 @@ class CallMixin:
             nv = SV(c.params[mname], fresh("mut_" + mname, c.params[mname]))
             env2[mname] = nv
         result = None
-        if c.returns != T.NoneT:
-            result = SV(c.returns, fresh("res_" + c.qual.split(".")[-1].split(":")[-1], c.returns))
+        rty = T.List(c.yields) if c.yields is not None else c.returns
+        if rty != T.NoneT:
+            result = SV(rty, fresh("res_" + c.qual.split(".")[-1].split(":")[-1], rty))
             if isinstance(c.returns, T.Obj):
                 pass
         if "__bn__" in pre.env: env2["__bn__"] = pre.env["__bn__"]
